@@ -2359,3 +2359,288 @@ func ruleWrapKeepsChain(id string, pkgs ...string) func(*Checker) {
 		}
 	}
 }
+
+// ---- round 14 ----
+
+// ruleBodyReadToEnd — a body is read with io.Copy, not with one Read.
+func ruleBodyReadToEnd(id string) func(*Checker) {
+	return func(c *Checker) {
+		c.rule(id, "Nothing in the slug package calls Read on the tar reader (or on an io.Reader made from it) itself: entry bodies go through io.Copy / io.CopyN / io.CopyBuffer / io.ReadAll / io.ReadFull, which read until the end. One Read may return fewer bytes than asked for with a nil error — the decompressor hands out at most what is left of its window — and a `fast path` that writes what one Read returned truncates every body that lies across such a boundary; Unpack reports success.", 0)
+		c.absence(id)
+		p := c.P
+		n := 0
+		for _, fn := range p.Funcs {
+			if !p.InModule(fn) || pkgPathOf(p, fn) != p.PkgPath("slug") {
+				continue
+			}
+			for _, ci := range callsIn(fn) {
+				cc := ci.Common()
+				isRead := false
+				var recv ssa.Value
+				if cc.IsInvoke() && cc.Method.Name() == "Read" {
+					isRead, recv = true, cc.Value
+				} else if o := calleeObj(ci); o != nil && o.Name() == "Read" && len(cc.Args) > 0 {
+					if isMethod(o, "archive/tar", "Reader", "Read") || isMethod(o, "compress/gzip", "Reader", "Read") {
+						isRead, recv = true, cc.Args[0]
+					}
+				}
+				if !isRead || recv == nil {
+					continue
+				}
+				// a reader of the archive: tar.Reader, gzip.Reader, or an io.Reader parameter of a helper they are handed to
+				fromArchive := false
+				for w := range p.backSlice(recv, 2) {
+					t := w.Type().String()
+					if strings.Contains(t, "archive/tar.Reader") || strings.Contains(t, "compress/gzip.Reader") {
+						fromArchive = true
+					}
+				}
+				if !fromArchive {
+					continue
+				}
+				n++
+				c.fail(id, p.FuncName(fn), "single Read of an archive body", p.Pos(ci.Pos()), "an entry body is read with one Read call: Read may return fewer bytes than the body has, with a nil error, and what is written is a prefix of the file")
+			}
+		}
+		c.pass(id, "-", "calls inspected", "-", fmt.Sprintf("%d direct Read call(s) on the archive", n))
+	}
+}
+
+// ruleRestoreOrderKept — the deferred directory restores keep the archive's order for one path.
+func ruleRestoreOrderKept(id string) func(*Checker) {
+	return func(c *Checker) {
+		c.rule(id, "The list of directories Unpack restores at the end is not handed to an unstable sort (sort.Slice, sort.Sort, slices.SortFunc, slices.Sort): entries for one path compare equal under any ordering by path or depth, an unstable sort may exchange them (Go's does above twelve elements), and the directory then ends up with an earlier entry's mode and time instead of the last one's.", 0)
+		c.absence(id)
+		p := c.P
+		unpack := p.Fn("slug", "Packer.Unpack")
+		if unpack == nil {
+			c.anchorMissing(id, "(*Packer).Unpack")
+			return
+		}
+		n := 0
+		for _, fn := range sortedFuncs(p.reach(unpack)) {
+			if !p.InModule(fn) {
+				continue
+			}
+			for _, ci := range callsIn(fn) {
+				o := calleeObj(ci)
+				if o == nil || o.Pkg() == nil {
+					continue
+				}
+				unstable := (o.Pkg().Path() == "sort" && (o.Name() == "Slice" || o.Name() == "Sort")) || (o.Pkg().Path() == "slices" && (o.Name() == "SortFunc" || o.Name() == "Sort"))
+				if !unstable || len(ci.Common().Args) == 0 {
+					continue
+				}
+				// a slice of UnpackInfo values
+				a := ci.Common().Args[0]
+				if mi, ok := a.(*ssa.MakeInterface); ok {
+					a = mi.X
+				}
+				if !strings.Contains(a.Type().String(), "UnpackInfo") {
+					continue
+				}
+				n++
+				c.fail(id, p.FuncName(fn), "unstable sort of the recorded directories", p.Pos(ci.Pos()), "the directories recorded for the deferred restore are sorted with "+o.Pkg().Name()+"."+o.Name()+", which is not stable: two entries for the same directory may change places, and the earlier one's mode and time win")
+			}
+		}
+		c.pass(id, "-", "sorts inspected", "-", fmt.Sprintf("%d unstable sort(s) of UnpackInfo slices", n))
+	}
+}
+
+// ruleWalkingListResolved — the cycle guard compares resolved paths with resolved paths.
+func ruleWalkingListResolved(id string) func(*Checker) {
+	return func(c *Checker) {
+		c.rule(id, "The list of directories being walked, which the Pack walk carries along to refuse a dereferenced link that leads back into one of them, holds results of filepath.EvalSymlinks only — in every call of the walk factory, the list argument is nil or is built (literal, append) from such results. The guard compares with the resolved target; an element kept as the caller spelled it matches or not depending on whether the source was named through a link.", 1)
+		p := c.P
+		pc := getPackCtx(c, id)
+		if pc == nil {
+			return
+		}
+		n := 0
+		makers := map[*ssa.Function]bool{}
+		for _, w := range pc.Walks {
+			if w.Maker != nil {
+				makers[w.Maker] = true
+			}
+		}
+		resolved := func(v ssa.Value) bool {
+			for w := range p.backSlice(v, 0) {
+				if cl, ok := w.(*ssa.Call); ok && isFunc(calleeObj(cl), "path/filepath", "EvalSymlinks") {
+					return true
+				}
+			}
+			return false
+		}
+		for mk := range makers {
+			for _, site := range p.callersOf(mk) {
+				for i, a := range site.Common().Args {
+					sl, ok := a.Type().Underlying().(*types.Slice)
+					if !ok || !isStringType(sl.Elem()) {
+						continue
+					}
+					n++
+					// the elements that are put in here
+					var bad []string
+					seenV := map[ssa.Value]bool{}
+					var elems func(v ssa.Value, d int)
+					elems = func(v ssa.Value, d int) {
+						if v == nil || d > 8 || seenV[v] {
+							return
+						}
+						seenV[v] = true
+						switch x := v.(type) {
+						case *ssa.Const:
+						case *ssa.Phi:
+							for _, e := range x.Edges {
+								elems(e, d+1)
+							}
+						case *ssa.Slice:
+							if al, ok := x.X.(*ssa.Alloc); ok {
+								for _, st := range elemWrites(al) {
+									if !resolved(st.Val) {
+										bad = append(bad, "an element that is not an EvalSymlinks result")
+									}
+								}
+								return
+							}
+							elems(x.X, d+1)
+						case *ssa.Call:
+							if b, ok := x.Call.Value.(*ssa.Builtin); ok && b.Name() == "append" {
+								elems(x.Call.Args[0], d+1)
+								if len(x.Call.Args) > 1 {
+									elems(x.Call.Args[1], d+1)
+								}
+								return
+							}
+							bad = append(bad, "a list of unknown origin")
+						case *ssa.FreeVar, *ssa.Parameter:
+							// the list handed down by the enclosing walk: judged at its own call
+						case *ssa.UnOp:
+							if cv := canon(x); cv != ssa.Value(x) {
+								elems(cv, d+1)
+							}
+						default:
+							if cv := canon(v); cv != v {
+								elems(cv, d+1)
+							}
+						}
+					}
+					elems(a, 0)
+					c.check(len(bad) == 0, id, p.FuncName(site.Parent()), fmt.Sprintf("walked-directories list (argument %d of %s)", i, p.FuncName(mk)), p.Pos(site.Pos()), "nil, or built from filepath.EvalSymlinks results", "the list the cycle guard compares resolved targets with receives "+strings.Join(uniq(bad), ", ")+" — a path as the caller spelled it: whether the guard fires then depends on how the source directory was named")
+				}
+			}
+		}
+		c.check(n > 0, id, "-", "list argument found", "-", fmt.Sprintf("%d call(s)", n), "the walk factory no longer takes a list of directories being walked")
+	}
+}
+
+// ruleForwardPathLexical — the forward lookups answer with the path as joined.
+func ruleForwardPathLexical(id string) func(*Checker) {
+	return func(c *Checker) {
+		c.rule(id, "The string the LocalPathFor… lookups return is the lexical join of the root directory, the package directory and the sub-path: no result of filepath.EvalSymlinks flows into it. The reverse lookup is lexical; a forward lookup that answers with the location a link resolves to breaks path → address → path for every path through a link inside a package.", 2)
+		c.absence(id)
+		p := c.P
+		n := 0
+		for _, fn := range p.Funcs {
+			if !inBundlePkg(p, fn) || fn.Parent() != nil || !strings.HasPrefix(fn.Name(), "LocalPathFor") {
+				continue
+			}
+			for i, r := range returnsOf(fn) {
+				if len(r.Results) == 0 || !isStringType(r.Results[0].Type()) {
+					continue
+				}
+				n++
+				bad := false
+				for _, v := range returnValues(r, 0) {
+					if v == nil {
+						continue
+					}
+					for w := range p.backSlice(v, 2) {
+						if cl, ok := w.(*ssa.Call); ok && isFunc(calleeObj(cl), "path/filepath", "EvalSymlinks") {
+							bad = true
+						}
+					}
+				}
+				c.check(!bad, id, p.FuncName(fn), fmt.Sprintf("return %d is the joined path", i), p.Pos(r.Pos()), "no EvalSymlinks result in the returned path", "the forward lookup returns the location a symbolic link resolves to instead of the path as joined: translating a path to an address and back no longer gives the same path")
+			}
+		}
+		c.check(n > 0, id, "-", "forward lookups found", "-", fmt.Sprintf("%d return(s)", n), "no LocalPathFor… function with a string result found")
+	}
+}
+
+// ruleFreshHeaderPerEntry — every entry gets a header of its own.
+func ruleFreshHeaderPerEntry(id string) func(*Checker) {
+	return func(c *Checker) {
+		c.rule(id, "The *tar.Header written for an entry is allocated in the walk callback's own invocation (a composite literal or new in the callback): a header shared across entries (created once in the factory and refilled) keeps whatever a field was set to by an earlier entry and is not set again — Size from the last regular file on a directory or link entry — and the sizes recorded in the headers no longer add up to Meta.Size.", 1)
+		p := c.P
+		pc := getPackCtx(c, id)
+		if pc == nil {
+			return
+		}
+		n := 0
+		for _, h := range pc.Hosts {
+			for _, wh := range h.WriteHeaders {
+				if len(wh.Call.Args) < 2 {
+					continue
+				}
+				if !isMethod(calleeObj(wh), "archive/tar", "Writer", "WriteHeader") {
+					continue
+				}
+				n++
+				hv := canon(wh.Call.Args[1])
+				fresh := false
+				switch x := hv.(type) {
+				case *ssa.Alloc:
+					fresh = x.Parent() == h.Fn
+				case *ssa.Call:
+					// tar.FileInfoHeader(...) makes a new one
+					fresh = true
+				case *ssa.Parameter:
+					// a helper that is handed the header: judged at the caller (not followed here)
+					fresh = true
+				}
+				c.check(fresh, id, p.FuncName(h.Fn), "header allocated per entry", p.Pos(wh.Pos()), "the header is allocated in this invocation", "the header written is shared between entries (a variable of the enclosing function): fields an entry does not set keep the previous entry's value — a directory or link is recorded with the Size of the last file")
+			}
+		}
+		c.check(n > 0, id, "-", "WriteHeader call found", "-", fmt.Sprintf("%d call(s)", n), "no (*tar.Writer).WriteHeader call found in the walk")
+	}
+}
+
+// ruleTracerFromCallContext — each call reports to the tracer of its own context.
+func ruleTracerFromCallContext(id string) func(*Checker) {
+	return func(c *Checker) {
+		c.rule(id, "Every BuildTracer whose callbacks the builder consults comes from the context of the call that is running: it is the result of the context lookup (a function of the bundle package that takes a context and returns *BuildTracer) applied to a context parameter — never a value kept in a Builder field. The tracer belongs to the context of each Add… call; one remembered from the first call (often the no-op tracer) silences every later caller's.", 3)
+		p := c.P
+		n := 0
+		for _, fn := range p.Funcs {
+			if !inBundlePkg(p, fn) {
+				continue
+			}
+			eachInstr(fn, func(in ssa.Instruction) {
+				g, _ := traceEvent(in)
+				if g == "" {
+					return
+				}
+				ld := in.(*ssa.UnOp)
+				fa := ld.X.(*ssa.FieldAddr)
+				n++
+				fromField := false
+				fromLookup := false
+				for w := range p.backSlice(fa.X, 1) {
+					switch x := w.(type) {
+					case *ssa.FieldAddr:
+						if f := fieldOf(x); f != nil && isNamedT(derefType(x.X.Type()), "Builder") {
+							fromField = true
+						}
+					case *ssa.Call:
+						if h := x.Common().StaticCallee(); h != nil && p.InModule(h) && h.Signature.Recv() == nil && h.Signature.Params().Len() == 1 && strings.HasSuffix(h.Signature.Params().At(0).Type().String(), "context.Context") {
+							fromLookup = true
+						}
+					}
+				}
+				c.check(fromLookup && !fromField, id, p.FuncName(fn), "tracer of the running call: "+fieldOf(fa).Name(), p.Pos(in.Pos()), "looked up from the call's context", "the tracer consulted here is kept in a Builder field (or does not come from the context lookup): a later call with another context never reaches its own tracer")
+			})
+		}
+		_ = n
+	}
+}
